@@ -403,9 +403,8 @@ func checkC16(c *core.Ctx, l *core.Ledger) {
 				full++
 			}
 			if core.IsCallTo(in, "io", "ReadAtLeast") {
-				args := in.(ssa.CallInstruction).Common().Args
-				if core.Sym(args[2]) == "len("+core.Sym(args[1])+")" {
-					full++ // ReadAtLeast(r, b, len(b)) is ReadFull
+				if core.IsFullRead(in) {
+					full++ // ReadAtLeast(r, b, len(b)) is ReadFull (len of a whole array is its constant length)
 				} else {
 					partial = "io.ReadAtLeast with a minimum below the buffer length at " + c.Rel(in.Pos())
 				}
